@@ -64,6 +64,7 @@ pub fn canon_op(op: &Op) -> Op {
             main_path,
             rewrite,
             debug_log,
+            input,
             ..
         } => Op::Cli {
             files: files.clone(),
@@ -71,6 +72,7 @@ pub fn canon_op(op: &Op) -> Op {
             main_path: main_path.clone(),
             rewrite: *rewrite,
             debug_log: *debug_log,
+            input: *input,
             hash_base: 0,
             readdir_seed: 0,
         },
